@@ -213,6 +213,9 @@ func message(p, k int, cfg Config) []byte {
 	if (p+k)%5 == 4 {
 		n = 520 // crosses the 500-byte pooled buffer capacity
 	}
+	if (p+k)%5 == 2 {
+		n = []int{499, 500, 501}[(p*3+k)%3] // exactly the pooled capacity, and one either side
+	}
 	if cfg.Big && p == 0 && k == 0 {
 		n = 65537 + 16
 	}
